@@ -65,12 +65,13 @@ def apiStep (st : State) : Ev → State × List Out
     match allocate st with
     | (none, st) => (st, [.raised "allocation"])
     | (some sid, st) =>
+      -- (fix F18: the request frame is queued before `on_subscribe` runs, so whatever the subscriber does inside it follows the request)
       -- a refused `initial_request_n(0)` leaves the default MAX_REQUEST_N in the object
       let (st, oid) := st.register { kind := .stReq, sid := sid, payload := data, n0 := if n = 0 then 2147483647 else n }
       if n = 0 then (st.finish sid, [.created oid sid, .raised "initial-request-n"])
       else if subscribeNow then
         (st.setObj oid { kind := .stReq, sid := sid, payload := data, n0 := n, subscribed := true },
-         [.created oid sid, .onSubscribe oid, .send { ty := .requestStream, sid := sid, n := n, data := data }])
+         [.created oid sid, .send { ty := .requestStream, sid := sid, n := n, data := data }, .onSubscribe oid])
       else (st, [.created oid sid])
   | .requestChannel data n hasPub subscribeNow =>
     match allocate st with
@@ -83,7 +84,7 @@ def apiStep (st : State) : Ev → State × List Out
         let s' := { s with subscribed := true, hasPub := hasPub, setupDone := true }
         let st := st.setObj oid s'
         let outs := [.created oid sid] ++ (if hasPub then [.pubSubscribe oid] else []) ++
-          [.onSubscribe oid, .send { ty := .requestChannel, sid := sid, n := n, data := data, complete := !hasPub }]
+          [.send { ty := .requestChannel, sid := sid, n := n, data := data, complete := !hasPub }, .onSubscribe oid]
         (if hasPub then st else markChannel st oid s' false true, outs)
       else (st, [.created oid sid])
   | .subscribe oid =>
@@ -93,12 +94,12 @@ def apiStep (st : State) : Ev → State × List Out
       match s.kind with
       | .stReq =>
         (st.setObj oid { s with subscribed := true },
-         [.onSubscribe oid, .send { ty := .requestStream, sid := s.sid, n := s.n0, data := s.payload }])
+         [.send { ty := .requestStream, sid := s.sid, n := s.n0, data := s.payload }, .onSubscribe oid])
       | .chReq =>
         let s' := { s with subscribed := true, hasPub := s.pubGiven, setupDone := true }
         let st := st.setObj oid s'
         let outs := (if s.pubGiven then [.pubSubscribe oid] else []) ++
-          [.onSubscribe oid, .send { ty := .requestChannel, sid := s.sid, n := s.n0, data := s.payload, complete := !s.pubGiven }]
+          [.send { ty := .requestChannel, sid := s.sid, n := s.n0, data := s.payload, complete := !s.pubGiven }, .onSubscribe oid]
         (if s.pubGiven then st else markChannel st oid s' false true, outs)
       | _ => (st, [])
     | none => (st, [])
